@@ -99,6 +99,10 @@ class OwningSetOp(Contract):
             out["other_collections"] = z3.ForAll([w2], z3.Implies(
                 w2 != w, z3.Select(c1.arr("SetWrapper._data"), w2) == z3.Select(c0.arr("SetWrapper._data"), w2)))
         out["other_parents"] = z3.ForAll([n], z3.Implies(n != v, c1.get(self.parent_field, n) == c0.get(self.parent_field, n)))
+        # exported for callers (setters, constructors): how attachment changed
+        lem = self.lemmas(c0, c1, a, res)
+        for k in ("subtree_shape_unchanged", "ir_of_unchanged_outside", "ir_of_subtree"):
+            out[k] = lem[k]
         return out
 
 
@@ -340,3 +344,58 @@ def register(reg):
     for field, cls in (("sections", "Section"), ("symbols", "Symbol"), ("proxies", "ProxyBlock")):
         for op in ("add", "discard"):
             reg.add(NodeSetOp(field, cls, op))
+
+
+# ------------------------------------------------------------------------------------------------ parent setters
+class ParentSetter(Contract):
+    """child.<parent> = value  (ByteBlock.byte_interval, ByteInterval.section, Section/Symbol/ProxyBlock.module):
+    detach from the current parent, attach to the new one (either may be None)."""
+    props = PROPS
+
+    def __init__(self, file, child_cls, prop, parent_cls, parent_field, coll_field):
+        self.child_cls, self.prop, self.parent_cls = child_cls, prop, parent_cls
+        self.parent_field, self.coll_field = parent_field, coll_field
+        self.target = "%s::%s.%s.setter" % (file, child_cls, prop)
+        self.params = {"self": "ref:" + child_cls, "value": "optref:" + parent_cls}
+        self.modifies = ("SetWrapper._data", parent_field, "_interval_events", "_local_uuid_cache",
+                         "_symbol_name_index", "_symbol_referent_index")
+        super().__init__()
+
+    def region_invariant(self, c):
+        return forest.inv_region(c)
+
+    def focus(self, clause):
+        return wf_focus(clause)
+
+    def pre(self, c, a):
+        from pyvc.core import to_val
+        v = a.self.t
+        val = to_val(a.value)
+        out = dict(WF(c))
+        out["is_child"] = c.isinst(v, self.child_cls)
+        out["value_kind"] = z3.Or(is_VNone(val), z3.And(is_VRef(val), c.isinst(ref(val), self.parent_cls)))
+        out["uuids_distinct_where_attached"] = z3.Implies(
+            is_VRef(val), attach_ok(c, K.ir_of(c, ref(val)), v, self.child_cls))
+        return out
+
+    def post(self, c0, c1, a, res):
+        from pyvc.core import to_val
+        v = a.self.t
+        val = to_val(a.value)
+        out = dict(WF(c1))
+        out["parent"] = c1.get(self.parent_field, v) == val
+        n = fresh("n", Int)
+        out["other_parents"] = z3.ForAll([n], z3.Implies(n != v, c1.get(self.parent_field, n) == c0.get(self.parent_field, n)))
+        return out
+
+
+_register_prev4 = register
+
+
+def register(reg):
+    _register_prev4(reg)
+    reg.add(ParentSetter("block.py", "ByteBlock", "byte_interval", "ByteInterval", "_byte_interval", "blocks"))
+    reg.add(ParentSetter("byteinterval.py", "ByteInterval", "section", "Section", "_section", "byte_intervals"))
+    reg.add(ParentSetter("section.py", "Section", "module", "Module", "_module", "sections"))
+    reg.add(ParentSetter("symbol.py", "Symbol", "module", "Module", "_module", "symbols"))
+    reg.add(ParentSetter("block.py", "ProxyBlock", "module", "Module", "_module", "proxies"))
